@@ -76,9 +76,26 @@ claimed = {
    note="PRECONDITION assumed (the property's 'distinct frames or values'): caller-owned arguments do not alias codec state, globals or other goroutines' arguments. NOT covered: interleavings as such / the race detector's view; functions that manipulate values through package reflect (container codecs, injectors/extractors) and readCollection/writeCollection/Map/Tuple/Udt; third-party lz4/snappy internals and the standard library (trusted goroutine-safe); SetBodyCompressor (configuration call, writes its receiver by design); package initialisers. Read-only-parameter exemptions come from a conservative syntactic analysis.",
    technique="contract-based deductive verification: generated frame (ownership) contract per function over go/ssa VCs with an uninterpreted ownership predicate, checked at stores and call sites, discharged by z3/cvc5",
    design="DESIGN.md §11 C18"),
+ "C05": dict(
+   text="Proof of the byte accounting and of the raw round trip of the proxy-side operations: DecodeRawBody returns exactly the next Header.BodyLength bytes, unchanged, and consumes exactly that many; DiscardBody skips exactly that many on seekable and on plain sources; both refuse negative lengths; DecodeRawFrame is the decoded header followed by exactly the declared bytes; EncodeRawFrame writes the header with BodyLength = len(body) and then the body bytes unchanged; EncodeRawFrame followed by DecodeRawFrame returns the same header fields and length; ConvertToRawFrame/ConvertFromRawFrame keep the header object and declare the produced body's length; compressed bodies are decompressed from at most BodyLength bytes and body compressors touch only their two streams - for all frames, bodies and versions.",
+   note="NOT covered: equality of message contents between DecodeFrame and DecodeRawFrame+ConvertFromRawFrame (a relational statement over two decodings) and the re-encode clause for arbitrary decodable inputs. ASSUMED: io.Seeker's documented contract, stream models of io.CopyN / io.LimitReader / bytes.Buffer, message decoders write no pre-existing stream but their source (backed by C18). For a seekable source shorter than the declared body DiscardBody returns nil (stated; the property quantifies over valid frames).",
+   technique="contract-based deductive verification: stream-position and byte-content postconditions over prophecy/ghost stream models, lemma function for the raw round trip",
+   design="DESIGN.md §11 C05"),
+ "C02": dict(
+   text="Proof against a transcription of the specifications into contracts, independent of the code: EncodeHeader emits exactly version|direction bit, flags, stream id (1 signed byte in v2, 2 bytes big-endian from v3), opcode, 4-byte big-endian length and refuses unsupported versions; DecodeHeader returns exactly those fields from exactly those bytes and accepts only versions 2,3,4,5,0x41,0x42 and opcodes whose direction (request/response tables of the specifications) matches the direction bit - over all 2^16 version/opcode bytes and all other header contents; [byte], [short], [int], [long], [string], [long string], [bytes] (null = -1), [short bytes], [unsigned vint]/[vint] writers emit and readers accept exactly the specified bytes for every value.",
+   note="PARTIAL: the body layout of the 17 messages (field order and presence per version), [value], [inet], [uuid], maps, lists and type descriptors are NOT covered; capability predicates per version are proved against specification tables under C19. The transcription of the specifications is the oracle. Read side of vints: value for encodings up to 6 bytes, byte count for all.",
+   technique="contract-based deductive verification: byte-exact postconditions over ghost write streams and prophecy read streams, completely unrolled vint loops, header round-trip lemma",
+   design="DESIGN.md §11 C02"),
+ "C01": dict(
+   text="Proof of the frame-level part of the round trip: for every header with a supported version, an opcode of the matching direction and (v2) a stream id in [-128,127], EncodeHeader into a buffer succeeds and DecodeHeader of those bytes succeeds and returns the same direction, version, flags, stream id, opcode and body length; the same with an opaque body of any length (raw frames); and haveSameTable - which decides the GLOBAL_TABLES_SPEC flag under which the decoder copies one keyspace/table into every column - is true exactly when all columns share keyspace and table.",
+   note="PARTIAL: the round trip of the contents of the 17 message codecs and of the body prefix is NOT decided by this check (no byte-level relational proof over Encode/Decode pairs with strings and collections was completed); lengths are C03, flag/body consistency C20, compression wrappers C08, constants C19.",
+   technique="contract-based deductive verification: round-trip lemma functions over the real encoder and decoder with completeness clauses for in-memory buffers; loop invariant for the table-spec predicate",
+   design="DESIGN.md §11 C01"),
 }
 
 not_applicable = {
+ "C09": "the in-flight handler table is driven by goroutines, channels, select and a mutex (client/inflight.go, client/client.go): its statement is over histories of concurrent Send/receive/timeout/Close calls; the verifier's subset has no goroutines or channels (DESIGN.md §4 C09/§11), and the sequential channel tier planned there was not built",
+ "C10": "same mechanism as C09 (stream-id allocation and release under concurrent senders, timeouts and close): a whole-history property over goroutine schedules, outside what a per-call contract decides; not built (DESIGN.md §11)",
  "C16": "quantifies over crash points and schedules of goroutines, timers and sockets; no pre/postcondition or data-structure invariant over one call expresses it (DESIGN.md §4 C16)",
 }
 pending_reason = "contracts for this property are not yet under machine check in this commit; not claimed until its obligations discharge (DESIGN.md §8 order of work)"
